@@ -21,7 +21,7 @@ RULE = ("As C07 (nested 3D plotfiles with analytic fields A / K / T / R, constru
         "(A == alpha+beta*p away from the domain faces and the nearest sample within the first / last half cell of the "
         "level, K == stored pattern at every pixel, T / R from the two bracketing level samples wherever the level "
         "stores both); min/max rows == extrema of the written data; 2 poison runs bit-identical and poison-free. "
-        "Non-trivial = >= 2 levels and p strictly between cell centres of level 0.")
+        "A re-used object first slices along another normal; its later slices must equal a fresh object's. Non-trivial = >= 2 levels and p strictly between cell centres of level 0.")
 ASSUMPTIONS = ["same position construction and geometry bounds as C07"]
 
 
@@ -112,14 +112,19 @@ def check_case(case, ctx):
             pools.set_schedule(None)
     v = []
     if not use_cli:
-        # history: the second and third plotfile-format slices written by one object equal the first slice of a fresh one
+        # history: the second and third plotfile-format slices written by one object (after a first one along another normal)
+        # equal the first slice of a fresh one
         from ..harness import tree_files
         ctx.label("history:reused-object")
         pools.set_schedule(None if case["serial"] else case["sched"])
         try:
             with poisoned_empty(POISONS[0]):
                 m = qcall(Mandoline, "src", fields=list(req), limit_level=limit, serial=case["serial"], verbose=harness_verbosity(case))
-                for name in ("h1", "h2", "h3"):
+                # (the first one along another normal when the position is explicit: nothing of it - bounds, sizes, names -
+                #  may carry over into the later slices; without a position an object re-uses its previous one)
+                other = (cn + 1 + case["pos"]["index"] % 2) % 3 if p is not None else cn
+                qcall(m.slice, normal=other, pos=None if other != cn else p, fformat="plotfile", outfile="h1")
+                for name in ("h2", "h3"):
                     qcall(m.slice, normal=cn, pos=p, fformat="plotfile", outfile=name)
             first = tree_files("out0")
             for name in ("h2", "h3"):
